@@ -13,6 +13,18 @@ def getDataLength (addr : Bytes) (fuel : Nat) : FnSem := Gen.IpfixIR.getDataLeng
 def minRecordLen (addr : Bytes) (fuel : Nat) : FnSem := Gen.IpfixIR.minRecordLen.sem addr [] fuel
 def decodeData (addr : Bytes) (fuel : Nat) : FnSem :=
   Gen.IpfixIR.decodeData.sem addr [("getDataLength", getDataLength addr fuel)] fuel
+def fieldSpecUnmarshal (addr : Bytes) (fuel : Nat) : FnSem := Gen.IpfixIR.fieldSpecUnmarshal.sem addr [] fuel
+def tplHeaderUnmarshal (addr : Bytes) (fuel : Nat) : FnSem := Gen.IpfixIR.tplHeaderUnmarshal.sem addr [] fuel
+def tplHeaderUnmarshalOpts (addr : Bytes) (fuel : Nat) : FnSem := Gen.IpfixIR.tplHeaderUnmarshalOpts.sem addr [] fuel
+def tplRecordUnmarshal (addr : Bytes) (fuel : Nat) : FnSem :=
+  Gen.IpfixIR.tplRecordUnmarshal.sem addr
+    [("tplHeaderUnmarshal", tplHeaderUnmarshal addr fuel), ("fieldSpecUnmarshal", fieldSpecUnmarshal addr fuel)] fuel
+def tplRecordUnmarshalOpts (addr : Bytes) (fuel : Nat) : FnSem :=
+  Gen.IpfixIR.tplRecordUnmarshalOpts.sem addr
+    [("tplHeaderUnmarshalOpts", tplHeaderUnmarshalOpts addr fuel), ("fieldSpecUnmarshal", fieldSpecUnmarshal addr fuel)] fuel
+def setHeaderUnmarshal (addr : Bytes) (fuel : Nat) : FnSem := Gen.IpfixIR.setHeaderUnmarshal.sem addr [] fuel
+def msgHeaderUnmarshal (addr : Bytes) (fuel : Nat) : FnSem := Gen.IpfixIR.msgHeaderUnmarshal.sem addr [] fuel
+def msgHeaderValidate (addr : Bytes) (fuel : Nat) : FnSem := Gen.IpfixIR.msgHeaderValidate.sem addr [] fuel
 
 /-! ## how the model's results read as Go result lists -/
 
